@@ -4,6 +4,8 @@ from vlib import *  # noqa
 
 # property -> (family cfg, rule prefixes judged by this check, ops that must have been exercised successfully)
 FAMILY = {
+    "C03": dict(fam="authorize", prefixes=("C03.",), need=[("Authorize", "login"), ("Authorize", "redirErr"), ("Authorize", "page"), ("Authorize", "json"),
+                                                          ("Callback", "code"), ("Callback", "tokens"), ("Callback", "redirErr"), ("Callback", "page")]),
     "C04": dict(fam="code", prefixes=("C04.",), need=[("CodeExchange", "tokens"), ("CodeExchange", "json"), ("Callback", "code")]),
     "C07": dict(fam="refresh", prefixes=("C07.",), need=[("Refresh", "tokens"), ("Refresh", "json")]),
     "C08": dict(fam="tokenuse", prefixes=("C08.",), need=[("UserInfo", "claims"), ("Introspect", "active"), ("Introspect", "inactive"), ("Revoke", "ok200")]),
@@ -125,6 +127,45 @@ def signature(v):
 WALKS = dict(code=300, refresh=300, tokenuse=150, device=300, exchange=150, clientauth=60, logout=200, authorize=200, issue=150)
 
 
+def op_part(pid, tier, seed, wd, spec):
+    """Runs the OP-family pipeline for `spec` (an entry of FAMILY). Returns dict(new, known, coverage, assumptions)."""
+    res, viols = op_pipeline(pid, tier, seed, spec["fam"], wd)
+    trace = read_ndjson(os.path.join(wd, "trace.ndjson"))
+    mine = [v for v in viols if v["rule"].startswith(spec["prefixes"])]
+    for v in mine:
+        e = trace[v["line"] - 1]
+        v["router"], v["op"], v["beh"], v["step"] = e.get("router", "?"), e["op"], e.get("beh"), e.get("step")
+        v["args"], v["out_class"] = e["args"], e["out"]["class"]
+    cov = collections.Counter((e["op"], e["out"]["class"]) for e in trace)
+    missing = [n for n in spec["need"] if cov[n] == 0]
+    if missing:
+        raise Inconclusive(f"vacuous run: no event of kind {missing} in {len(trace)} trace lines")
+    histories = sum(1 for e in trace if e["op"] == "Reset")
+    new, known = report(pid, mine, signature,
+                        lambda v: dict(rule=v["rule"], line=v["line"], router=v["router"], op=v["op"], behaviour=v["beh"], step=v["step"],
+                                       args=v["args"], observed=v["out_class"]),
+                        wd, ["trace.ndjson", "raw.ndjson", "viol.ndjson", "behaviours.ndjson", "world.json"], seed, tier)
+    sample = [dict(op=e["op"], router=e.get("router"), args=e["args"], out_class=e["out"]["class"], status=e["out"]["status"])
+              for e in trace[1:12]]
+    nontrivial = len({(e.get("router"), e["op"], e["out"]["class"], e["out"].get("err"), json.dumps(e["args"], sort_keys=True))
+                      for e in trace if e["op"] != "Reset"})
+    log(f"[{pid}] {histories} histories / {len(trace)} events from real code validated by OPTrace; {len(mine)} rule failures ({new} new signatures, {known} known); {len(res['divergences'])} design-vs-code divergences")
+    coverage = dict(
+        states=res["design"]["states"], transitions=res["design"]["transitions"],
+        traces_validated_against_impl=histories, samples=sample,
+        evaluations=len(trace), distinct_nontrivial=nontrivial,
+        rule="events = operations executed against the real provider; distinct by (router, operation, abstract arguments, outcome class, error code)",
+        design=res["design"], tlc_behaviours_replayed=res["behaviours"], monitor_lines=res["lines"],
+        outcome_coverage={f"{k[0]}:{k[1]}": v for k, v in sorted(cov.items())},
+        divergences=res["divergences"][:50], divergences_total=len(res["divergences"]),
+        rule_prefixes=list(spec["prefixes"]), known_findings_seen=known,
+        exhaustive=False)
+    assumptions = ["harness store (modelstore) implements the storage contract of pkg/op/storage.py".replace(".py", ".go"),
+                   "projection of HTTP responses to abstract outcomes (harness/opdrv) is faithful",
+                   "design-spec bounds as in " + res["design"]["cfg"]]
+    return dict(new=new, known=known, coverage=coverage, assumptions=assumptions)
+
+
 def op_check(pid, tier, seed, replay=None):
     spec = FAMILY[pid]
     t0 = time.time()
@@ -132,42 +173,9 @@ def op_check(pid, tier, seed, replay=None):
     try:
         if tier == "replay":
             return op_replay(pid, wd, replay, spec)
-        res, viols = op_pipeline(pid, tier, seed, spec["fam"], wd)
-        trace = read_ndjson(os.path.join(wd, "trace.ndjson"))
-        mine = [v for v in viols if v["rule"].startswith(spec["prefixes"])]
-        for v in mine:
-            e = trace[v["line"] - 1]
-            v["router"], v["op"], v["beh"], v["step"] = e.get("router", "?"), e["op"], e.get("beh"), e.get("step")
-            v["args"], v["out_class"] = e["args"], e["out"]["class"]
-        cov = collections.Counter((e["op"], e["out"]["class"]) for e in trace)
-        missing = [n for n in spec["need"] if cov[n] == 0]
-        if missing:
-            raise Inconclusive(f"vacuous run: no event of kind {missing} in {len(trace)} trace lines")
-        histories = sum(1 for e in trace if e["op"] == "Reset")
-        new, known = report(pid, mine, signature,
-                            lambda v: dict(rule=v["rule"], line=v["line"], router=v["router"], op=v["op"], behaviour=v["beh"], step=v["step"],
-                                           args=v["args"], observed=v["out_class"]),
-                            wd, ["trace.ndjson", "raw.ndjson", "viol.ndjson", "behaviours.ndjson", "world.json"], seed, tier)
-        sample = [dict(op=e["op"], router=e.get("router"), args=e["args"], out_class=e["out"]["class"], status=e["out"]["status"])
-                  for e in trace[1:12]]
-        nontrivial = len({(e.get("router"), e["op"], e["out"]["class"], e["out"].get("err"), json.dumps(e["args"], sort_keys=True))
-                          for e in trace if e["op"] != "Reset"})
-        write_evidence(pid, tier, seed, "model_checking", dict(
-            states=res["design"]["states"], transitions=res["design"]["transitions"],
-            traces_validated_against_impl=histories, samples=sample,
-            evaluations=len(trace), distinct_nontrivial=nontrivial,
-            rule="events = operations executed against the real provider; distinct by (router, operation, abstract arguments, outcome class, error code)",
-            design=res["design"], tlc_behaviours_replayed=res["behaviours"], monitor_lines=res["lines"],
-            outcome_coverage={f"{k[0]}:{k[1]}": v for k, v in sorted(cov.items())},
-            divergences=res["divergences"][:50], divergences_total=len(res["divergences"]),
-            rule_prefixes=list(spec["prefixes"]), known_findings_seen=known,
-            exhaustive=False),
-            time.time() - t0, new,
-            assumptions=["harness store (modelstore) implements the storage contract of pkg/op/storage.go",
-                         "projection of HTTP responses to abstract outcomes (harness/opdrv) is faithful",
-                         "design-spec bounds as in " + res["design"]["cfg"]])
-        log(f"[{pid}] {histories} histories / {len(trace)} events from real code validated by OPTrace; {len(mine)} rule failures ({new} new signatures, {known} known); {len(res['divergences'])} design-vs-code divergences")
-        return 1 if new else 0
+        r = op_part(pid, tier, seed, wd, spec)
+        write_evidence(pid, tier, seed, "model_checking", r["coverage"], time.time() - t0, r["new"], assumptions=r["assumptions"])
+        return 1 if r["new"] else 0
     finally:
         cleanup(wd)
 
@@ -211,4 +219,4 @@ def op_replay(pid, wd, path, spec):
     return 0
 
 
-CHECKS = {p: op_check for p in FAMILY}
+CHECKS = {p: op_check for p in FAMILY if p not in ('C03',)}   # C03 is composed in tables.py
